@@ -62,10 +62,13 @@ def sp_host(cfg):
     def fdel(self):
         self.base = 0
 
+    # invalidated_by="*": every mutation of another attribute drops the cache / the override - but not the assignment of the
+    # property itself
+    star = {"invalidated_by": "*"} if cfg.get("star") else {}
     if cfg.get("form") == "decorator":
         # the documented decorator spelling: every `.getter` / `.setter` / `.deleter` step returns a new property, which must
         # keep all the options of the one it was derived from
-        prop = spec_property(fget, overridable=cfg["overridable"], cache=cfg["cache"])
+        prop = spec_property(fget, overridable=cfg["overridable"], cache=cfg["cache"], **star)
         if cfg["setter"]:
             prop = prop.setter(fset)
         if cfg["deleter"]:
@@ -73,7 +76,7 @@ def sp_host(cfg):
         prop = prop.getter(fget)
     else:
         prop = spec_property(fget, fset if cfg["setter"] else None, fdel if cfg["deleter"] else None,
-                             overridable=cfg["overridable"], cache=cfg["cache"])
+                             overridable=cfg["overridable"], cache=cfg["cache"], **star)
     ns = {"base": 1, "p": prop}
     host = cfg["host"]
     bases = ()
@@ -105,6 +108,7 @@ def run_sp(ctx, case):
     managed = host in MANAGED
     prep = _prep if host in PREPARED else (lambda v: v)
     base, slot = 1, None  # slot: None | ("override"|"cache", value)
+    star = bool(cfg.get("star")) and host != "plain"
     after_change = nontrivial = False
     tagbase = f"sp:{host}"
     for i, op in enumerate(ops):
@@ -150,7 +154,7 @@ def run_sp(ctx, case):
                 pv = v
             if exp_exc is None:
                 if cfg["setter"]:
-                    new_base, new_slot = pv, slot
+                    new_base, new_slot = pv, (None if star else slot)
                 elif cfg["overridable"]:
                     new_base, new_slot = base, ("override", pv)
                 else:
@@ -171,7 +175,7 @@ def run_sp(ctx, case):
         elif name == "delete":
             exp_exc = None
             if cfg["deleter"]:
-                new_base, new_slot = 0, slot
+                new_base, new_slot = 0, (None if star else slot)
             elif (cfg["overridable"] or cfg["cache"]) and slot is not None:
                 new_base, new_slot = base, None
             else:
@@ -192,6 +196,8 @@ def run_sp(ctx, case):
         elif name == "state":
             obj.base = op[1]
             base = op[1]
+            if star:
+                slot = None
             after_change = True
         else:
             raise AssertionError(op)
@@ -358,6 +364,11 @@ def sp_configs():
     for host in ("plain", "spec_managed"):
         for o, c, s, d in itertools.product([False, True], repeat=4):
             yield {"host": host, "overridable": o, "cache": c, "setter": s, "deleter": d, "form": "decorator"}
+    for host in ("spec_unmanaged", "spec_managed"):
+        # (no custom deleter here: invalidation deletes the property, and a deleter that itself mutates state would be
+        # invalidated by its own effect - unbounded recursion by construction of the example, not a protocol question)
+        for o, c, s in itertools.product([False, True], repeat=3):
+            yield {"host": host, "overridable": o, "cache": c, "setter": s, "deleter": False, "star": True}
 
 
 def cp_configs():
